@@ -83,7 +83,7 @@ def strStep (g : StrGen) (ts : List String) : Option String :=
     | some n, some ws =>
       if ws.any (fun w => w ≥ 2^63) then some "bad-op" else
       match generate g n ws with
-      | .panic => none
+      | .panic => some "panicked"   -- `Generate(n<0)` panics in `buf.Grow`; the generator is untouched and stays usable
       | .exhausted => some "exhausted"
       | .done out rest => some s!"{hex (Utf8.encode out)} {ws.length - rest.length}"
     | _, _ => some "bad-op"
